@@ -365,6 +365,19 @@ def oracle_c07(im, ops=None, faults_ok=False):
             continue
         m = spec_decode(r["line"])
         tagged = [(w, ok) for w, ok in r["writes"] if ";1;" in w and w.rstrip("\n").split(";", 5)[5].startswith(TAG)]
+        if m is not None and m[2] == 2:
+            # the reply to a value request carries the stored value, which may look like a tag
+            # (the application may command exactly the value the node reported last): not a release
+            try:
+                stored = r["before"]["nodes"][m[0]]["children"][m[1]]["values"].get(m[4])
+            except KeyError:
+                stored = None
+            if stored is not None:
+                reply = f"{m[0]};{m[1]};1;0;{m[4]};{stored}\n"
+                for x in tagged:
+                    if x[0] == reply:
+                        tagged.remove(x)
+                        break
         wn = wake_node(r)
         if m is not None and m[2] == 0 and m[1] == 255:
             for key in pending:
